@@ -16,6 +16,7 @@ import (
 
 type Clause struct {
 	Props []string // when set: the clause belongs to these properties only
+	OwnOnly bool   // exported to callers only in checks of those properties
 	Expr ast.Expr
 	Src  string
 	Mode string // "", "sound", "complete"
